@@ -30,7 +30,7 @@ RULE = ("(a) seeded SPD systems (size 1..30, cond 10..1e8, Gram / banded-with-ne
         "families x 5 P_initial modes; (b) seeded imaging inversions (as C04) x solver settings grid x 2 formalisms x 2 configs. "
         "A case = one system or one (dataset, objects); distinct by hash of (A, D) resp. (mask, kernel, data, noise, B); "
         "non-trivial = the unconstrained solution has at least one negative entry (the constraint is active) or a parameter is forced to zero")
-BOUNDS = {"quick": "1500 systems x 5 warm-start modes + 3 solver entry points; 96 inversions x up to 10 settings",
+BOUNDS = {"quick": "1500 systems (8 % exactly symmetric twin systems, half in other units) x 5 warm-start modes + 3 solver entry points; 96 inversions x up to 14 settings (test and production configuration, explicit and defaulted)",
           "thorough": "60000 systems; 6000 inversions"}
 EXHAUSTIVE = {"quick": False, "thorough": False}
 ASSUMPTIONS = ["solutions are judged for scales >= 1e-7 (matrix scales 1e-6..1e14); optima of absolute size ~1e-14 hit the solver's absolute tolerance "
